@@ -40,7 +40,7 @@ pub fn build_modules(mods: &[(&str, String)], ptr: usize) -> Outcome {
         ptr.hash(&mut h);
         for (k, s) in mods { k.hash(&mut h); s.hash(&mut h); }
         let parsed = mods.iter().all(|(_, s)| pyxis::parser::parse_str(s).is_ok());
-        DISTINCT.with(|d| { let mut d = d.borrow_mut(); if d.0.insert(h.finish()) { if parsed { d.1 += 1; } if d.2.len() < 3 && parsed && d.0.len() % 977 == 1 { d.2.push(format!("ptr={ptr}: {}", mods[0].1.replace('\n', " "))); } } });
+        DISTINCT.with(|d| { let mut d = d.borrow_mut(); if d.0.insert(h.finish()) { if parsed { d.1 += 1; } if d.2.len() < 3 && parsed && d.0.len() % 977 == 1 { d.2.push(format!("ptr={ptr}: {}", mods[0].1.replace('\n', " ").chars().take(300).collect::<String>())); } } });
     }
     let r = catch_unwind(AssertUnwindSafe(|| -> anyhow::Result<ResolvedSemanticState> {
         let mut st = SemanticState::new(ptr);
